@@ -25,25 +25,16 @@ def run(ctx):
                      "the earlier batches of the invocation are re-played: joint capacity, all placements start now) and a strategy of the "
                      "request's profile, start == now and >= the request's release; "
                      "getters of cluster and tasks identical before/after each call (compared in Coq as values)")
-    dist_all = {}
+    dist_all, groups = {}, []
     for mode, n in (("natural", 60 if quick else 1500), ("adversarial", 30 if quick else 500), ("load", 20 if quick else 300), ("sim", 10 if quick else 150)):
         hs, impls = c15.generate(ctx, n, size, mode)
         nt, dist = c15.stats(ctx, hs, impls)
         ctx.cov["distinct_nontrivial"] += nt
-        occupied = sum(1 for im in impls for r in im["steps"] for p in r["view"] for w in p["workers"])
-        dist["worker_views"] = occupied
+        dist["worker_views"] = sum(1 for im in impls for r in im["steps"] for p in r["view"] for w in p["workers"])
         dist_all[mode] = dist
-        stream = "S-cw-" + mode + "(C10)"
         if mode == "natural":
-            ctx.sample({"stream": stream, "history": hs[0], "implementation": c15.expected(impls[0])})
-        c15.getters_monitor(ctx, hs, impls, stream + ":getters")
-        c15.starts_monitor(ctx, hs, impls, stream + ":starts")
-        c15.strip(hs, impls)
-        try:
-            c15.correspondence(ctx, hs, impls, stream)
-        except core.ModelEvalError as e:
-            ctx.broken.append({"kind": "correspondence", "name": stream, "detail": str(e)[-600:]})
-        c15.monitors(ctx, hs, impls, stream, once=(mode != "adversarial"))
+            ctx.sample({"stream": "S-cw(C10)", "history": hs[0], "implementation": c15.expected(impls[0])})
+        groups.append((mode, hs, impls))
     ctx.cov["input_distribution"] = dist_all
-    c15.run_corpus(ctx, "S-cw-corpus(C10)")
+    c15.evaluate(ctx, groups, "S-cw(C10)", getters=True, starts=True)
     return built
